@@ -269,7 +269,8 @@ SongDiff(ms, rs) ==
   ELSE LET D == { t \in DOMAIN ms.tracks : TrackDiff(ms.tracks[t], rs.tracks[t]) # "" } IN
        IF D = {} THEN "" ELSE LET t == CHOOSE x \in D : \A y \in D : x <= y IN ToString(<<"track", t>>) \o " " \o TrackDiff(ms.tracks[t], rs.tracks[t])
 CvtDiff(m, ev) ==
-  IF m.ok # (ev.r = 0) THEN ToString(<<"result", "model", IF m.ok THEN "converted" ELSE "rejected", "real", ev.r>>)
+  IF "crash" \in DOMAIN m THEN ToString(<<"the model predicts a crash in mus2mid_writevarlen (delta time >= 2^28)", "real", ev.r>>)
+  ELSE IF m.ok # (ev.r = 0) THEN ToString(<<"result", "model", IF m.ok THEN "converted" ELSE "rejected", "real", ev.r>>)
   ELSE IF ~m.ok THEN ""
   ELSE IF Len(m.songs) # Len(ev.songs) THEN ToString(<<"songs", "model", Len(m.songs), "real", Len(ev.songs)>>)
   ELSE LET D == { s \in DOMAIN m.songs : SongDiff(m.songs[s], ev.songs[s]) # "" } IN
